@@ -805,4 +805,158 @@ Proof.
   unfold kept, R3. intros (A1 & A2 & A3 & A4 & _ & _ & _ & _ & _ & A10) (B1 & B2 & B3 & B4).
   repeat split; try congruence. destruct A10 as [A10|[A10 _]]; congruence.
 Qed.
+
+(* ------------------------------------------------------------------ closed forms of the interpreter steps used in phases G, H *)
+Ltac ev_st := cbn [rstate_eqb sname String.eqb Ascii.eqb Bool.eqb orb andb negb].
+
+Lemma ds_continue (s : st) popped r :
+  dstep s (CContinue popped r) = inl (if popped then set_resps s (r :: resps s) else s, CTop, []).
+Proof. reflexivity. Qed.
+
+Lemma ds_top_pausing_permit (s : st) l :
+  state s = Pausing -> cache s = Some l -> permit s = true -> dstep s CTop = inl (s, CBody, []).
+Proof.
+  intros H1 H2 H3. cbn [RE_Small.dstep]. unfold resumable. rewrite H1, H2. ev_st. rewrite H3. cbn [negb]. reflexivity.
+Qed.
+
+Lemma ds_body (s : st) : List.length (resps s) = List.length (plans s) -> stashed s = None ->
+  dstep s CBody = inr (set_pc s PcSleep0, [OTask WSleep0]).
+Proof. intros H1 H2. cbn [RE_Small.dstep]. rewrite H1, Nat.eqb_refl, H2. reflexivity. Qed.
+
+Lemma ds_cancelled_pausing (s : st) popped : state s = Pausing ->
+  dstep s (CCancelled popped) = inl (set_permit s false, CContinue popped (RVal VNone), []).
+Proof. intros H. cbn [RE_Small.dstep]. rewrite H. reflexivity. Qed.
+
+Lemma ds_top_pause (s : st) l s2 o2 s3 e o3 :
+  state s = Pausing -> cache s = Some l -> permit s = false ->
+  stop_movables dev s = (s2, o2) -> call_pausables dev s2 MPause = (s3, e, o3) ->
+  dstep s CTop =
+    match e with
+    | Some x => inl (s3, CExit (XExn x), [] ++ o2 ++ o3)
+    | None => inr (set_pc (set_blocking (set_state_raw s3 Paused) true) PcPaused,
+                   [] ++ o2 ++ o3 ++ [OState Pausing Paused] ++ [OTask WFuture])
+    end.
+Proof.
+  intros H1 H2 H3 E2 E3. cbn [RE_Small.dstep]. unfold resumable. rewrite H1, H2. ev_st. rewrite H3. cbn [negb]. rewrite H1. ev_st.
+  rewrite E2, E3. destruct e as [x|]; [reflexivity|]. unfold set_state.
+  assert (Hs : state s3 = Pausing).
+  { apply stop_movables_r3 in E2. apply call_pausables_r3 in E3. unfold r3 in *. congruence. }
+  rewrite Hs, allowed_pausing_paused. reflexivity.
+Qed.
+
+Lemma fuel_S (s : st) : exists k, FUEL s = S (S (S (S (S (S k))))).
+Proof. unfold FUEL. exists (4 * List.length (plans s) + 10). lia. Qed.
+
+(* the hard pause made by the engine itself (end of the grace sleep) or requested from outside *)
+Lemma hard_pause_spec (s : st) :
+  state s = Running -> bintr_ok (bundlers s) = true -> (pc s = PcSleep0 \/ exists k, pc s = PcCmd k) ->
+  exists s1 o1,
+    request_pause s false = (s1, None, OState Running Pausing :: o1) /\ Forall dq o1 /\
+    state s1 = Pausing /\ deferred s1 = false /\ interrupted s1 = true /\ must_cancel s1 = true /\
+    cache s1 = cache s /\ plans s1 = plans s /\ resps s1 = resps s /\ pc s1 = pc s /\ permit s1 = permit s /\
+    stashed s1 = stashed s.
+Proof.
+  intros Hs Hb Hpc. unfold request_pause. rewrite Hs, allowed_running_pausing. cbn [negb].
+  assert (Hnf : forall r, pc s <> PcFinalSleep r) by (intros r; destruct Hpc as [-> | [k ->]]; discriminate).
+  assert (E1 : match pc (interrupt (set_deferred s false) CzPause) with
+               | PcFinalSleep _ => set_ghost (interrupt (set_deferred s false) CzPause)
+                                     (icause (interrupt (set_deferred s false) CzPause)) true
+                                     (intr_err (interrupt (set_deferred s false) CzPause))
+               | _ => interrupt (set_deferred s false) CzPause
+               end = interrupt (set_deferred s false) CzPause).
+  { cbn [pc interrupt set_ghost set_interrupted set_deferred upd]. destruct (pc s) eqn:E; try reflexivity. exfalso; eapply Hnf; reflexivity. }
+  rewrite E1. unfold set_state. cbn [state interrupt set_ghost set_interrupted set_deferred upd]. rewrite Hs, allowed_running_pausing.
+  unfold record_interruptions. cbn [bundlers set_state_raw interrupt set_ghost set_interrupted set_deferred upd].
+  destruct (record_intr_list_ok _ Hb) as (bs & o0 & E & _ & _). rewrite E.
+  pose proof (record_intr_list_dq _ _ _ _ E) as Q0.
+  eexists _, o0. split; [reflexivity|]. split; [exact Q0|].
+  unfold cancel_task. cbn [pc set_bundlers upd2 set_state_raw interrupt set_ghost set_interrupted set_deferred upd].
+  destruct Hpc as [Hp | [k Hp]]; rewrite Hp; cbn; rewrite ?Hp; repeat split.
+Qed.
+
+(* phase G -> H: the grace sleep is over, the engine makes the hard pause: `pausing`, flag cleared, call marked
+   interrupted, the task cancelled; the checkpoint's response is pushed and the task goes to sleep; nothing is executed *)
+Lemma task_step_G (s : st) :
+  state s = Running -> pc s = PcCmd KCkptSleep -> must_cancel s = false -> cache s = Some [] ->
+  bintr_ok (bundlers s) = true -> permit s = true -> stashed s = None ->
+  S (List.length (resps s)) = List.length (plans s) ->
+  exists s' o1,
+    task_step presume plan_of dev s = (s', (OState Running Pausing :: o1) ++ [OResp (RVal VNone)] ++ [OTask WSleep0]) /\
+    Forall dq o1 /\
+    state s' = Pausing /\ pc s' = PcSleep0 /\ must_cancel s' = true /\ cache s' = Some [] /\ deferred s' = false /\
+    interrupted s' = true /\ plans s' = plans s /\ resps s' = RVal VNone :: resps s.
+Proof.
+  intros Hs Hpc Hmc Hc Hb Hpm Hsh Hlen.
+  destruct (hard_pause_spec (set_must_cancel s false)) as (s1 & o1 & E & Q & A1 & A2 & A3 & A4 & A5 & A6 & A7 & A8 & A9 & A10);
+    [exact Hs | exact Hb | right; eexists; exact Hpc|].
+  cbn [cache plans resps pc permit stashed set_must_cancel upd] in A5, A6, A7, A8, A9, A10.
+  exists (set_pc (set_resps s1 (RVal VNone :: resps s1)) PcSleep0), o1.
+  split; [|split; [exact Q|]].
+  - unfold task_step. cbv zeta. rewrite Hpc, Hmc, E.
+    destruct (fuel_S s1) as [k ->].
+    rewrite RE_Small.drive_dstep, ds_continue. cbv iota.
+    rewrite RE_Small.drive_dstep, (ds_top_pausing_permit _ []);
+      [|cbn; exact A1 | cbn; rewrite A5; exact Hc | cbn; rewrite A9; exact Hpm].
+    rewrite RE_Small.drive_dstep, ds_body; [|cbn; rewrite A6, A7, Hlen; reflexivity | cbn; rewrite A10; exact Hsh].
+    rewrite !app_nil_r. rewrite <- !app_assoc. reflexivity.
+  - cbn. rewrite A5, A6, A7. repeat split; assumption.
+Qed.
+
+(* an exit of the loop executes no further message and advances no plan *)
+Definition noexec_ob (x : obs) : bool :=
+  match x with OMsg _ => false | OPlanIn _ (Send _ | Throw _) => false | _ => true end.
+Lemma finq_noexec l : Forall finq l -> forallb noexec_ob l = true.
+Proof. intros H. eapply forallb_Forall; [|exact H]. intros x Hx; destruct x; cbn in *; try tauto. destruct i; tauto. Qed.
+Lemma dq_noexec l : Forall dq l -> forallb noexec_ob l = true.
+Proof. intros H. eapply forallb_Forall; [|exact H]. intros x Hx; destruct x; cbn in *; tauto. Qed.
+
+Lemma drive_exit_noexec fuel (s : st) x os s' o :
+  drive presume plan_of dev fuel s (CExit x) os = (s', o) -> exists o', o = os ++ o' /\ forallb noexec_ob o' = true.
+Proof.
+  intros H. destruct fuel as [|fuel]; [rewrite RE_Small.drive_0 in H; invc H; eexists; split; reflexivity|].
+  rewrite RE_Small.drive_dstep in H. cbn [RE_Small.dstep] in H.
+  assert (K : forall s1 r pend, drive presume plan_of dev fuel s1 (CFinalize r pend) (os ++ []) = (s', o) ->
+              exists o', o = os ++ o' /\ forallb noexec_ob o' = true).
+  { intros s1 r pend H1. rewrite app_nil_r in H1.
+    destruct fuel as [|fuel']; [rewrite RE_Small.drive_0 in H1; invc H1; eexists; split; reflexivity|].
+    rewrite RE_Small.drive_dstep in H1. cbn [RE_Small.dstep] in H1.
+    destruct (finalize presume dev s1 r pend) as [sf of] eqn:Ef. invc H1.
+    eexists; split; [reflexivity|]. apply finq_noexec. eapply finalize_finq; exact Ef. }
+  destruct x as [v|e]; [invc H; eexists; split; reflexivity|].
+  destruct e; first [invc H; eexists; split; reflexivity | eapply K; exact H].
+Qed.
+
+(* phase H -> Z: the cancelled task parks: devices stopped and paused, lifecycle `paused`, the caller released.
+   If a device's pause() hook raises, the task leaves the loop instead; no message is executed in either case *)
+Lemma task_step_H (s : st) s2 o2 s3 e o3 :
+  state s = Pausing -> pc s = PcSleep0 -> must_cancel s = true -> cache s = Some [] ->
+  stop_movables dev (set_permit (set_must_cancel s false) false) = (s2, o2) ->
+  call_pausables dev s2 MPause = (s3, e, o3) ->
+  (e = None ->
+     task_step presume plan_of dev s =
+       (set_pc (set_blocking (set_state_raw s3 Paused) true) PcPaused, o2 ++ o3 ++ [OState Pausing Paused] ++ [OTask WFuture])) /\
+  forallb noexec_ob (snd (task_step presume plan_of dev s)) = true.
+Proof.
+  intros Hs Hpc Hmc Hc E2 E3.
+  assert (T : task_step presume plan_of dev s =
+              match e with
+              | Some x => drive presume plan_of dev (S (S (S (4 * List.length (plans s) + 10)))) s3 (CExit (XExn x)) (([] ++ []) ++ [] ++ o2 ++ o3)
+              | None => (set_pc (set_blocking (set_state_raw s3 Paused) true) PcPaused,
+                         ([] ++ []) ++ [] ++ o2 ++ o3 ++ [OState Pausing Paused] ++ [OTask WFuture])
+              end).
+  { unfold task_step. cbv zeta. rewrite Hpc, Hmc.
+    replace (FUEL (set_must_cancel s false)) with (S (S (S (S (S (S (4 * List.length (plans s) + 10))))))) by (unfold FUEL; cbn; lia).
+    rewrite RE_Small.drive_dstep, ds_cancelled_pausing by exact Hs.
+    rewrite RE_Small.drive_dstep, ds_continue. cbv iota.
+    rewrite RE_Small.drive_dstep, (ds_top_pause _ [] s2 o2 s3 e o3); [|exact Hs | exact Hc | reflexivity | exact E2 | exact E3].
+    destruct e; reflexivity. }
+  pose proof E2 as Q2. apply stop_movables_dq in Q2. pose proof E3 as Q3. apply call_pausables_dq in Q3.
+  split.
+  - intros ->. rewrite T. reflexivity.
+  - rewrite T. destruct e as [x|].
+    + destruct (drive presume plan_of dev _ s3 (CExit (XExn x)) _) as [sf of] eqn:Ed.
+      apply drive_exit_noexec in Ed. destruct Ed as (o' & -> & Q). cbn [snd app].
+      rewrite RE_Ctl.forallb_app, RE_Ctl.forallb_app, Q, (dq_noexec _ Q2), (dq_noexec _ Q3). reflexivity.
+    + cbn [snd app]. rewrite RE_Ctl.forallb_app, RE_Ctl.forallb_app, (dq_noexec _ Q2), (dq_noexec _ Q3). reflexivity.
+Qed.
 End Defer.
